@@ -143,6 +143,11 @@ static const char* const kStratName[] = {"rw", "burst", "pct", "stall", "hunt"};
 static int g_hunt_victim = -1, g_hunts_left = 0;
 static const void* g_hunt_addr = nullptr;
 static uint64_t g_hunt_release_at = 0;
+static int g_hunt_pending = -1;     // fiber that has just loaded a watched word: held from its next point on
+static int g_stale_left = 0;        // budget of such holds per run
+static bool g_hunt_stale = false;   // the current hold is of that kind
+static bool g_hunt_write_seen = false;
+static struct { const char* lo; const char* hi; } g_stale[8]; static int g_nstale = 0;
 static uint32_t g_drain_n = 4;      // a buffered store is drained with probability 1/g_drain_n per schedule point (per run: 4, 16 or 64)
 
 static const uint32_t kCost[K_NKINDS] = {1, 1, 5, 5, 20, 20000, 2000, 2000, 2000, 25, 100, 20000, 100, 100, 3000, 10, 10};
@@ -358,6 +363,7 @@ bool tso_load(const void* addr, void* out, size_t n) {
         if (f->tso[i].addr == addr && f->tso[i].n == n) { memcpy(out, f->tso[i].val, n); return true; }
     return false;
 }
+void stale_watch(const void* p, size_t n) { if (g_nstale < 8) { g_stale[g_nstale].lo = (const char*)p; g_stale[g_nstale].hi = (const char*)p + n; ++g_nstale; } }
 void tso_register(const void* p, size_t n) {
     if (!g_cfg.tso || g_nregions >= 64) return;
     g_regions[g_nregions++] = {(const char*)p, (const char*)p + n};
@@ -687,19 +693,32 @@ void point_slow(int kind, const void* addr) {
             if (sched_choice(g_drain_n, "drain") == 1) tso_drain_one(f);
         }
     }
+    if (g_strategy == S_HUNT) {
+        if (g_hunt_pending == cur->id) {          // its previous point was the load of a watched word
+            g_hunt_pending = -1; g_hunt_victim = cur->id; g_hunt_stale = true; g_hunt_write_seen = false; g_hunt_release_at = g_step + 400 + g_rng_sched.below(2600);
+            if (g_trace) tr("[sim] %llu hunt: f%d held back after loading the watched word %p\n", (unsigned long long)g_step, cur->id, g_hunt_addr);
+        } else if (kind == K_LOAD && g_nstale && g_hunt_victim < 0 && g_hunt_pending < 0 && g_stale_left > 0 && g_nfib > 1) {
+            bool in = false;
+            for (int i = 0; i < g_nstale; ++i) if ((const char*)addr >= g_stale[i].lo && (const char*)addr < g_stale[i].hi) in = true;
+            if (in && g_rng_sched.chance(0.2)) { g_hunt_pending = cur->id; g_hunt_addr = addr; --g_stale_left; }
+        }
+    }
     if (kind == K_PAUSE || kind == K_YIELD) { cur->spin_points++; cur->spin_run++; }
     else if (kind == K_LOAD) { if (cur->spin_run) cur->spin_addr = addr; }
     else {
         if (g_strategy == S_HUNT && (kind == K_RMW || kind == K_STORE || kind == K_FENCE || kind == K_FUTEX_WAIT) && addr != cur->spin_addr &&   // an RMW on the polled word itself is a successful acquisition
             cur->spin_run >= 8 && cur->spin_addr && g_hunt_victim < 0 && g_hunts_left > 0 && g_rng_sched.chance(0.5)) {
-            g_hunt_victim = cur->id; g_hunt_addr = cur->spin_addr; g_hunt_release_at = g_step + 3000 + g_rng_sched.below(6000); --g_hunts_left;
+            g_hunt_victim = cur->id; g_hunt_stale = false; g_hunt_write_seen = false; g_hunt_addr = cur->spin_addr; g_hunt_release_at = g_step + 3000 + g_rng_sched.below(6000); --g_hunts_left;
             if (g_trace) tr("[sim] %llu hunt: f%d held back before its sleep path, polled word %p\n", (unsigned long long)g_step, cur->id, g_hunt_addr);
         }
         cur->spin_run = 0;
     }
     if (g_hunt_victim >= 0 && cur->id != g_hunt_victim && (kind == K_STORE || kind == K_RMW) && addr == g_hunt_addr) {
-        uint64_t at = g_step + g_rng_sched.below(10);
-        if (at < g_hunt_release_at) g_hunt_release_at = at;
+        // (a held-back sleeper is released within a few points; a fiber carrying a stale version word sometimes much later:
+        //  what makes its value harmful may be a third fiber acting on the new version)
+        uint64_t at = g_step + (g_hunt_stale && g_rng_sched.chance(0.6) ? g_rng_sched.below(800) : g_rng_sched.below(10));
+        if (!g_hunt_write_seen && at < g_hunt_release_at) g_hunt_release_at = at;      // the first write decides; later writes do not shorten the hold
+        g_hunt_write_seen = true;
     }
     if (kind == K_USER) {   // two different fibers interleave inside harness bodies: the run is inside the operation window
         static int last_user_fiber = -1;
@@ -772,7 +791,7 @@ void child_run(const Job& job, const uint64_t* tape, const Dec* dec, Shared* out
     g_stall_victim = (int)g_rng_sched.below(4);
     g_stall_from = g_rng_sched.below(est);
     g_stall_to = g_stall_from + est / 2 + g_rng_sched.below(est * 2);
-    g_hunt_victim = -1; g_hunts_left = 1 + (int)g_rng_sched.below(3);
+    g_hunt_victim = -1; g_hunt_pending = -1; g_nstale = 0; g_hunts_left = 1 + (int)g_rng_sched.below(3); g_stale_left = 3 + (int)g_rng_sched.below(6);
     { static const uint32_t dn[] = {4, 4, 16, 64}; g_drain_n = dn[g_rng_sched.below(4)]; }
     g_cfg.strategy = g_strategy;
     if (g_replay) g_strategy = -1;
